@@ -1847,7 +1847,13 @@ func runC08OneOfPresence(c *Ctx) {
 					})
 				}
 				// handing the field's address to a wrapper (ByteSlice over &bv.BytesValue) does not initialise it
-				c.Check(stored != nil && !isNilConst(stored), fmt.Sprintf("%s built in %s holds a non-nil value", T.Obj().Name(), fnName(fn)), p.Pos(al.Pos()), "field initialised with a non-nil value", "the alternative is constructed with a nil field, and its generated encoder writes the field only when it is non-nil: the value is encoded as an empty AnyValue and decodes as a value of no type (an empty bytes value comes back as Empty; JSON keeps it, so JSON→protobuf also disagrees with protobuf)")
+				okNonNil := stored != nil && !isNilConst(stored)
+				if okNonNil {
+					if _, isSlice := stored.Type().Underlying().(*types.Slice); isSlice && !provablyNonNilSlice(stored, 0) {
+						okNonNil = false
+					}
+				}
+				c.Check(okNonNil, fmt.Sprintf("%s built in %s holds a non-nil value", T.Obj().Name(), fnName(fn)), p.Pos(al.Pos()), "field initialised with a provably non-nil value (make, literal)", "the alternative is constructed with a nil field, and its generated encoder writes the field only when it is non-nil: the value is encoded as an empty AnyValue and decodes as a value of no type (an empty bytes value comes back as Empty; JSON keeps it, so JSON→protobuf also disagrees with protobuf)")
 			})
 		}
 	}
